@@ -13,6 +13,7 @@ Decided:
 Not decided: finiteness in general (divisions by computed quantities), accuracy.
 """
 import ast
+LINT_EXTRA_FILES = ("ahrs/common/orientation.py",)      # acc2q / am2q / ecompass helpers the filters start from
 import numpy as np
 from sa import poly as P
 from sa.facts import Facts
